@@ -262,6 +262,10 @@ fn main() {
     run_mix(&mut ctx, seed, |c, e| {
         exec_dispatch(c, e);
     });
+    // and concurrently: the same sample on several threads at once (shared state inside the library)
+    run_mix_concurrent(&mut ctx, seed, cli.threads, |c, e| {
+        exec_dispatch(c, e);
+    });
     let mut required = Vec::new();
     for g in Group::ALL {
         for n in 0..=8usize {
